@@ -43,34 +43,42 @@ class Formatter(AbstractFormatter):
     def _get_type(self, value: Any) -> str:
         return str(type(value))
 
+    def _format_value(self, value: Any) -> str:
+        try:
+            return repr(value)
+        except ValueError:
+            # e.g. an int with more digits than sys.get_int_max_str_digits()
+            return object.__repr__(value)
+
     def _pluralize(self, count: int, options: Sequence[str]) -> str:
         return options[0] if count == 1 else options[-1]
 
     def format_type_error(self, error: TypeValidationError) -> str:
         actual_type = self._get_type(error.actual_value)
         formatted_path = self._at_path(error.path)
-        return (f"Value {error.actual_value!r}{formatted_path} "
+        return (f"Value {self._format_value(error.actual_value)}{formatted_path} "
                 f"must be {error.expected_type}, but {actual_type} given")
 
     def format_value_error(self, error: ValueValidationError) -> str:
         actual_type = self._get_type(error.actual_value)
         formatted_path = self._at_path(error.path)
         return (f"Value {actual_type}{formatted_path} "
-                f"must be equal to {error.expected_value!r}, but {error.actual_value!r} given")
+                f"must be equal to {error.expected_value!r}, "
+                f"but {self._format_value(error.actual_value)} given")
 
     def format_min_value_error(self, error: MinValueValidationError) -> str:
         actual_type = self._get_type(error.actual_value)
         formatted_path = self._at_path(error.path)
         return (f"Value {actual_type}{formatted_path} "
                 f"must be greater than or equal to {error.min_value!r}, "
-                f"but {error.actual_value!r} given")
+                f"but {self._format_value(error.actual_value)} given")
 
     def format_max_value_error(self, error: MaxValueValidationError) -> str:
         actual_type = self._get_type(error.actual_value)
         formatted_path = self._at_path(error.path)
         return (f"Value {actual_type}{formatted_path} "
                 f"must be less than or equal to {error.max_value!r}, "
-                f"but {error.actual_value!r} given")
+                f"but {self._format_value(error.actual_value)} given")
 
     def _format_length_error(self, path: PathHolder, actual_value: Any,
                              length: int, accuracy: str) -> str:
@@ -130,13 +138,14 @@ class Formatter(AbstractFormatter):
 
     def format_extra_key_error(self, error: ExtraKeyValidationError) -> str:
         formatted_path = self._at_path(error.path)
-        return f"Value{formatted_path} contains extra key {error.extra_key!r}"
+        return f"Value{formatted_path} contains extra key {self._format_value(error.extra_key)}"
 
     def format_schema_missmatch_error(self, error: SchemaMismatchValidationError) -> str:
         actual_type = self._get_type(error.actual_value)
         formatted_path = self._at_path(error.path)
         return (f"Value {actual_type}{formatted_path} "
-                f"must match any of {error.expected_schemas!r}, but {error.actual_value!r} given")
+                f"must match any of {error.expected_schemas!r}, "
+                f"but {self._format_value(error.actual_value)} given")
 
     def format_invalid_uuid_version_error(self, error: InvalidUUIDVersionValidationError) -> str:
         actual_type = self._get_type(error.actual_value)
